@@ -469,7 +469,7 @@ def c01(run, scratch):
     retrace_mc(run, scratch, "entries_thorough" if t else "entries_quick", "frame", workers=14 if t else 10)
     retrace_mc(run, scratch, "files_thorough" if t else "files_quick", "frame", workers=14 if t else 10)
     retrace_mc(run, scratch, "ranges_thorough" if t else "ranges_quick", "frame", workers=14 if t else 10)
-    retrace_trace(run, scratch, "Trace_Retrace_frame", "frame", 200 if t else 40, 300 if t else 120, SMALL_CORPUS,
+    retrace_trace(run, scratch, "Trace_Retrace_frame", "frame", 80 if t else 40, 150 if t else 120, SMALL_CORPUS,
                   workers=14 if t else 10)
     frameiter_trace(run, scratch, 60 if t else 15, 80, SMALL_CORPUS[:2])
     blocks_trace(run, scratch, 100000 if t else 80)
@@ -495,7 +495,7 @@ def c03(run, scratch):
     retrace_mc(run, scratch, "ranges_thorough" if t else "ranges_quick", "params", workers=14 if t else 10)
     # entries with and without a foreign original class in one (name, arguments) bucket, in every order
     retrace_mc(run, scratch, "ambig_thorough" if t else "ambig_quick", "params", workers=14 if t else 10)
-    retrace_trace(run, scratch, "Trace_Retrace_params", "params", 200 if t else 40, 300 if t else 120, SMALL_CORPUS,
+    retrace_trace(run, scratch, "Trace_Retrace_params", "params", 80 if t else 40, 150 if t else 120, SMALL_CORPUS,
                   workers=14 if t else 10)
     run.exhaustive = False
     run.assumptions += COMMON_ASSUME
@@ -508,9 +508,9 @@ def c04(run, scratch):
     retrace_mc(run, scratch, "ambig_thorough" if t else "ambig_quick", "lookup", workers=14 if t else 10)
     mc_reader(run, scratch)
     retrace_mc(run, scratch, "records_thorough" if t else "records_quick", "lookup", workers=14 if t else 10)
-    retrace_trace(run, scratch, "Trace_Retrace_lookup", "lookup", 120 if t else 30, 300 if t else 120, SMALL_CORPUS,
+    retrace_trace(run, scratch, "Trace_Retrace_lookup", "lookup", 60 if t else 30, 150 if t else 120, SMALL_CORPUS,
                   workers=14 if t else 10)
-    retrace_trace(run, scratch, "Trace_Retrace_names", "names", 40 if t else 10, 400 if t else 200, [],
+    retrace_trace(run, scratch, "Trace_Retrace_names", "names", 20 if t else 10, 300 if t else 200, [],
                   workers=14 if t else 10)
     run.exhaustive = False
     run.assumptions += COMMON_ASSUME
@@ -525,7 +525,7 @@ def c02(run, scratch):
     for cfg in (["blocks_thorough", "files_thorough", "records_thorough", "names_quick", "entries_quick", "ambig_thorough", "ranges_thorough"] if t else
                 ["blocks_quick", "files_quick", "names_quick", "ambig_quick"]):
         retrace_mc(run, scratch, cfg, "all", workers=14 if t else 10)
-    retrace_trace(run, scratch, "Trace_Retrace_all", "all", 300 if t else 60, 300 if t else 150, SMALL_CORPUS,
+    retrace_trace(run, scratch, "Trace_Retrace_all", "all", 100 if t else 60, 200 if t else 150, SMALL_CORPUS,
                   workers=14 if t else 10, scale=200000 if t else 70000)
     blocks_trace(run, scratch, 100000 if t else 150)
     system_traces(run, scratch, 8 if t else 3, 600 if t else 400)
